@@ -58,6 +58,7 @@ pub fn run(t: &[&str]) -> String {
         "c20.bufm" => entrybuf::bufm(t),
         "c20.curm" => entrybuf::curm(t),
         "c20.treem" => entrybuf::treem(t),
+        "c20.linem" => entrybuf::linem(t),
         // ---------------------------------------------------------------- unwind context
         "c20.hist" | "c20.histm" => {
             let bytes = hex(t[5]);
@@ -339,6 +340,86 @@ mod entrybuf {
                 }
             }
         }
+    }
+
+    fn line_row(r: &gimli::LineRow) -> String {
+        format!(
+            "{},{},{},{},{},{}{}{}{}{},{},{}",
+            r.address(),
+            r.op_index(),
+            r.file_index(),
+            r.line().map(|l| l.get()).unwrap_or(0),
+            match r.column() {
+                gimli::ColumnType::LeftEdge => 0,
+                gimli::ColumnType::Column(c) => c.get(),
+            },
+            r.is_stmt() as u8,
+            r.basic_block() as u8,
+            r.end_sequence() as u8,
+            r.prologue_end() as u8,
+            r.epilogue_begin() as u8,
+            r.isa(),
+            r.discriminator()
+        )
+    }
+
+    fn drain_rows<'a>(r: &mut gimli::LineRows<R<'a>, gimli::IncompleteLineProgram<R<'a>>>, cap: usize) -> Vec<String> {
+        let mut v = Vec::new();
+        let mut calls = 0;
+        loop {
+            calls += 1;
+            if calls > cap {
+                v.push("termination-mismatch".into());
+                return v;
+            }
+            match r.next_row() {
+                Ok(Some((_, row))) => v.push(line_row(row)),
+                Ok(None) => {
+                    v.push("end".into());
+                    return v;
+                }
+                Err(e) => v.push(format!("err:{}", errname(&e))),
+            }
+        }
+    }
+
+    /// c20.linem <be> <asz> <unit hex> <k>: k calls, clone, drain the clone, drain the original
+    pub fn linem(t: &[&str]) -> String {
+        let en = endian(t[1]);
+        let asz = u(t[2]) as u8;
+        let bytes = hex(t[3]);
+        let k = u(t[4]) as usize;
+        let dl = gimli::DebugLine::new(&bytes, en);
+        let prog = match dl.program(gimli::DebugLineOffset(0), asz, None, None) {
+            Ok(p) => p,
+            Err(e) => return err(&e),
+        };
+        let mut rows = prog.rows();
+        let mut out = vec!["ok".to_string()];
+        let mut ended = false;
+        for _ in 0..k {
+            match rows.next_row() {
+                Ok(Some((_, r))) => out.push(line_row(r)),
+                Ok(None) => {
+                    ended = true;
+                    break;
+                }
+                Err(e) => out.push(format!("err:{}", errname(&e))),
+            }
+        }
+        let _ = ended;
+        let mut copy = rows.clone();
+        let cap = bytes.len() + 2;
+        let a = drain_rows(&mut copy, cap);
+        let b = drain_rows(&mut rows, cap);
+        if a != b {
+            return format!("clone-mismatch clone=[{}] original=[{}]", a.join(" "), b.join(" "));
+        }
+        out.push("|".into());
+        out.extend(a);
+        out.push("|".into());
+        out.extend(b);
+        out.join(" ")
     }
 
     pub fn treem(t: &[&str]) -> String {
